@@ -115,10 +115,16 @@ class Poly:
                 t[m] = t.get(m, 0) + c1 * c2 * k
         return Poly(t)
 
+    def as_atom(self) -> "Poly":
+        """wrap a multi-term polynomial as one opaque atom (canonical name = its normal form)."""
+        if self.is_monomial() or self.is_zero():
+            return self
+        return Poly.atom("[" + repr(self) + "]")
+
     def inv(self) -> Optional["Poly"]:
-        if not self.is_monomial():
+        if self.is_zero():
             return None
-        return self.pow(Fraction(-1))
+        return self.as_atom().pow(Fraction(-1))
 
     def div(self, o: "Poly") -> Optional["Poly"]:
         i = o.inv()
@@ -140,8 +146,10 @@ class Poly:
             for _ in range(int(e)):
                 r = r * self
             return r
-        if not self.is_monomial():
+        if self.is_zero():
             return None
+        if not self.is_monomial():
+            return self.as_atom().pow(e)
         (m, c), = self.terms.items()
         d = {a: x * e for a, x in m}
         if c < 0:
